@@ -5,7 +5,7 @@ PY ?= /venv/bin/python
 VERIF_REPO ?= /repo
 export VERIF_REPO
 
-COQSRC := $(filter-out coq/Extract.v,$(wildcard coq/*.v)) coq/Tables.v coq/Grammars.v coq/GrammarsCalc.v
+COQSRC := $(filter-out coq/Extract.v coq/ExtractFront.v,$(wildcard coq/*.v)) coq/Tables.v coq/Grammars.v coq/GrammarsCalc.v coq/Builtins.v
 COQSRC := $(sort $(COQSRC))
 COQVO := $(COQSRC:.v=.vo)
 PROPSRC := $(wildcard coq/props/*.v)
@@ -37,8 +37,15 @@ ocaml/model.ml: $(COQVO) coq/Extract.v
 ocaml/driver: ocaml/model.ml ocaml/driver.ml ocaml/conv.ml ocaml/ext.ml
 	@cd ocaml && ./build.sh
 
+# the front-end model (Front.v) has a driver of its own
+ocaml/front_ml.ml: $(COQVO) coq/ExtractFront.v
+	@cd ocaml && timeout 600 coqc -Q ../coq PP ../coq/ExtractFront.v >/dev/null
+
+ocaml/front_main: ocaml/front_ml.ml ocaml/front_main.ml
+	@cd ocaml && timeout 600 ocamlfind ocamlopt -w -a front_ml.mli front_ml.ml front_main.ml -o front_main
+
 ocaml: coq
-	@$(MAKE) --no-print-directory ocaml/driver
+	@$(MAKE) --no-print-directory ocaml/driver ocaml/front_main
 
 clean:
 	rm -f coq/*.vo coq/*.vos coq/*.vok coq/*.glob coq/.*.aux coq/props/*.vo coq/props/*.glob \
